@@ -56,6 +56,9 @@ func (msg *Encrypted) Serialize(client MessageInformator, requireToAck bool) ([]
 	return buf.Bytes(), nil
 }
 
+// authKeyLen is size of auth key in bytes: it is always 2048-bit number
+const authKeyLen = 256
+
 func DeserializeEncrypted(data, authKey []byte) (*Encrypted, error) {
 	msg := new(Encrypted)
 
@@ -63,6 +66,11 @@ func DeserializeEncrypted(data, authKey []byte) (*Encrypted, error) {
 	d, err := tl.NewDecoder(buf)
 	if err != nil {
 		return nil, err
+	}
+	// while key exchange is still running there is no auth key yet (and a broken session may hold a cut one):
+	// nothing can be sealed under such key, so packet which claims to be encrypted can't be trusted
+	if len(authKey) != authKeyLen {
+		return nil, fmt.Errorf("can't decrypt message: auth key has %v bytes, want %v", len(authKey), authKeyLen)
 	}
 	keyHash := d.PopRawBytes(tl.LongLen)
 	if !bytes.Equal(keyHash, utils.AuthKeyHash(authKey)) {
